@@ -19,6 +19,7 @@ type Scheduler interface {
 	Lock(m *RWMutex, write bool)
 	Unlock(m *RWMutex, write bool)
 	Access(m *RWMutex, write bool, site string)
+	AccessField(m *RWMutex, field string, write bool, site string)
 	Yield(tag string)
 }
 
@@ -180,4 +181,12 @@ func TryRecv(ch reflect.Value) (reflect.Value, bool) {
 		return reflect.Value{}, false
 	}
 	return v, ok
+}
+
+// AccessField reports an access to a field of a scope other than its two guarded
+// maps (fields an edit may add, the parent link, the external lookup).
+func AccessField(m *RWMutex, field string, write bool, site string) {
+	if S != nil {
+		S.AccessField(m, field, write, site)
+	}
 }
